@@ -128,18 +128,36 @@ def layout_of(x):
     return out
 
 
+def state_names(x):
+    """the public fields of a scheme object: its slots (whole class hierarchy) and instance dictionary, without private
+    names (caches and the like) and without the configuration it was built for"""
+    names = []
+    for cls in type(x).__mro__:
+        sl = getattr(cls, "__slots__", ())
+        names += [sl] if isinstance(sl, str) else list(sl)
+    names += list(getattr(x, "__dict__", {}))
+    return [n for n in dict.fromkeys(names) if not n.startswith("_") and n != "config"]
+
+
 def fields_equal(a, b):
+    """a: the copy, b: the original: every public field the original has is there and equal (guards against an __eq__
+    that looks at less than the object holds)"""
     if type(a) is not type(b):
         return False
     try:
-        return all(getattr(a, f) == getattr(b, f) for f in type(a).__slots__)
+        for f in state_names(b):
+            if not hasattr(b, f):
+                continue                 # a declared slot that is not set on the original
+            if not hasattr(a, f) or not (getattr(a, f) == getattr(b, f)):
+                return False
+        return True
     except Exception:
         return False
 
 
 def has_set(x):
     try:
-        return any(isinstance(getattr(x, f), (set, frozenset)) for f in type(x).__slots__)
+        return any(isinstance(getattr(x, f, None), (set, frozenset)) for f in state_names(x))
     except Exception:
         return False
 
@@ -160,12 +178,7 @@ def equality_bits(x2, x, b):
 
 
 def positions(res, exp):
-    got = res.get_result_list()
-    if isinstance(got, (set, frozenset)):
-        got = sorted(got, key=lambda x: exp.index(x) if x in exp else -1)
-    else:
-        got = list(got)
-    return sc.result_positions(got, exp)
+    return sc.result_positions(sc.ordered(res.get_result_list(), exp), exp)
 
 
 def err(ex):
